@@ -5,7 +5,7 @@
 From Coq Require Import List NArith Bool Lia PeanoNat Arith String.
 From TG.Gen Require Import GenTokens GenGrammar GenDocGrammar.
 From TG.Model Require Import Chars Lexer Prep Tree ParserPrims GInterp DocGrammar GramAbs GramCert TokSem GramComp.
-From TG.Proofs Require Import GramRx GramSound TokRefine TokFrame TokComplete GramCompRx GramCompSound.
+From TG.Proofs Require Import GramRx GramSound TokRefine TokFrame TokComplete GramCompRx GramCompSound TokLead.
 Import ListNotations.
 Open Scope string_scope.
 
@@ -261,3 +261,43 @@ Definition same_strings (a b : list string) : bool :=
   forallb (fun x => existsb (String.eqb x) b) a && forallb (fun x => existsb (String.eqb x) a) b.
 Definition same_kinds (a b : list TokenKind) : bool :=
   forallb (fun x => kset_mem x b) a && forallb (fun x => kset_mem x a) b.
+
+(** * Every text: trivia (white space, comments, preprocessor directives and the regions they disable) anywhere *)
+Lemma grammar_lead_skip : lead_skip 8 grammar_prog (ECall grammar_entry None) = Done.
+Proof. vm_compute. reflexivity. Qed.
+
+Theorem comp_complete_text : forall txt w, ntk txt = Some w -> derives comp_grammar nt_SourceFile w ->
+  exists n0, forall n, n0 <= n ->
+    parse_with n grammar_prog grammar_entry txt = ParsePanic \/
+    exists t st, parse_with n grammar_prog grammar_entry txt = ParseOk t [] st.
+Proof.
+  intros txt w Hn Hd. destruct source_file_covered as [Hc Hf].
+  destruct (comp_complete_tok nt_SourceFile grammar_entry Hc w Hd [] 0 Hf) as (n0 & H0). exists n0. intros n Hle.
+  specialize (H0 n Hle). rewrite app_nil_r in H0.
+  pose proof (proj2 (lead_refine grammar_prog 8 (ECall grammar_entry None)) grammar_lead_skip n [] []
+                (p_new txt) _ (TP_new txt w Hn) (Forall2_nil _)) as R.
+  change {| tks := w; terr := 0; tafter := false |} with (mk_ts w 0) in R. rewrite H0 in R.
+  unfold parse_with. destruct (gexec n grammar_prog (ECall grammar_entry None) [] (p_new txt)) as [v en s'| | | |]; cbn [prim_ok] in R; try contradiction; auto.
+  destruct R as (_ & _ & (_ & Hne & _)). cbn [terr mk_ts] in Hne. unfold nerr in Hne.
+  unfold p_finish. destruct (b_finish (bld s')) as [t|]; auto. right. exists t, s'.
+  destruct (errs s'); [reflexivity|discriminate Hne].
+Qed.
+
+(** non-vacuity: comments, white space and a disabled #ifdef region anywhere *)
+Definition comp_example_text2 : list N := Eval vm_compute in
+  map (fun a => N.of_nat (Ascii.nat_of_ascii a))
+      (list_ascii_of_string "// c
+#ifdef X
+ junk } ]
+#endif
+  def /* c */ x ; // end
+"%string).
+Example comp_example_ntk2 : lex_clean comp_example_text2 = true /\ text_tokens comp_example_text2 = [T_Def] ++ [T_Id] ++ [T_Semi].
+Proof. vm_compute. auto. Qed.
+
+(** in terms of the preprocessor model's run: [text_tokens txt] = the non-trivia kinds of [prep_text txt] *)
+Theorem comp_complete_any_text : forall txt, lex_clean txt = true -> derives comp_grammar nt_SourceFile (text_tokens txt) ->
+  exists n0, forall n, n0 <= n ->
+    parse_with n grammar_prog grammar_entry txt = ParsePanic \/
+    exists t st, parse_with n grammar_prog grammar_entry txt = ParseOk t [] st.
+Proof. intros txt Hc Hd. exact (comp_complete_text txt (text_tokens txt) (ntk_text txt Hc) Hd). Qed.
